@@ -1734,6 +1734,18 @@ func (lc *LightningChannel) restoreStateLogs(
 		lc.updateLogs.Local.restoreHtlc(&htlc)
 	}
 
+	// Restore unsigned acked local log updates so we expect the peer to
+	// sign for them. These updates are part of the current remote
+	// commitment, so their log indexes are lower than those of any update
+	// in a dangling commit below. They must be restored first to keep the
+	// local update log ordered by log index (the last fee update wins).
+	err := lc.restorePeerLocalUpdates(
+		remoteUnsignedLocalUpdates, remoteCommitment.height,
+	)
+	if err != nil {
+		return err
+	}
+
 	// If we have a dangling (un-acked) commit for the remote party, then we
 	// restore the updates leading up to this commit.
 	if pendingRemoteCommit != nil {
@@ -1747,18 +1759,9 @@ func (lc *LightningChannel) restoreStateLogs(
 
 	// Restore unsigned acked remote log updates so that we can include them
 	// in our next signature.
-	err := lc.restorePendingRemoteUpdates(
+	return lc.restorePendingRemoteUpdates(
 		unsignedAckedUpdates, localCommitment.height,
 		pendingRemoteCommit,
-	)
-	if err != nil {
-		return err
-	}
-
-	// Restore unsigned acked local log updates so we expect the peer to
-	// sign for them.
-	return lc.restorePeerLocalUpdates(
-		remoteUnsignedLocalUpdates, remoteCommitment.height,
 	)
 }
 
